@@ -194,6 +194,19 @@ theorem admit_iff (d : DagRec) :
     omega
 
 
+/-- `out_degree_unique(dag, a) == 1` means: any two op nodes of the dag that read array `a` are the
+same node — the array a fusable predecessor produces has no consumer other than the op it is fused into. -/
+theorem single_consumer (d : DagRec) (a : String) (s o : OpRec) (hs : s ∈ d.ops) (ho : o ∈ d.ops)
+    (hsa : s.inEdges.contains a = true) (hoa : o.inEdges.contains a = true)
+    (h1 : outDegreeUnique d a = 1) : o = s := by
+  unfold outDegreeUnique at h1
+  obtain ⟨x, hx⟩ := List.length_eq_one_iff.mp h1
+  have h_s : s ∈ d.ops.filter (fun o => o.inEdges.contains a) := List.mem_filter.mpr ⟨hs, hsa⟩
+  have h_o : o ∈ d.ops.filter (fun o => o.inEdges.contains a) := List.mem_filter.mpr ⟨ho, hoa⟩
+  rw [hx] at h_s h_o
+  simp at h_s h_o
+  rw [h_s, h_o]
+
 def AllFit (d : DagRec) : Prop := ∀ q ∈ d.ops, q.isPrim = true → q.projMem ≤ q.allowedMem
 
 theorem canFuse_isPrim (d : DagRec) (o : OpRec) (ps : Params) (h : canFuse d o ps = some true) :
